@@ -647,6 +647,7 @@ def make_config(rng: SimRng, tier: str) -> dict:
         "warmup": r.randint(3, 6),
         # swarm focus: ops on one kind of component dominate this run
         "focus": r.choice([None, None, *KINDS]),
+        "clone_rate": r.choice([0.0, 0.0, 0.05, 0.1]),
     }
 
 
@@ -688,6 +689,8 @@ class Executor:
         self.i = i
         if op["op"] == "query":
             self.do_query(op)
+        elif op["op"] == "clone":
+            self.do_clone(op)
         else:
             self.do_mutation(op)
 
@@ -784,6 +787,25 @@ class Executor:
         self.snap, self.names = post, names
 
     # ----------------------------------------------------------------
+    def do_clone(self, op: dict) -> None:
+        """The history continues on a copy of the model (deepcopy, or a pickle round trip as
+        every pool task does): the copy carries the memo and the id registry with it."""
+        import pickle
+
+        how = op.get("how", "deepcopy")
+        try:
+            clone = copy.deepcopy(self.m) if how == "deepcopy" else pickle.loads(pickle.dumps(self.m))  # noqa: S301
+        except Exception as e:  # noqa: BLE001
+            self.trace.add("clone", how, "exc", type(e).__name__)
+            self.counters[f"clone_failed:{type(e).__name__}"] += 1
+            return
+        post = snapshot(clone)
+        if canon(post) != canon(self.snap) or dict(clone.ids) != dict(self.m.ids):
+            self._viol("clone_differs", ["clone_differs", how], f"a {how} copy of the model has different content or ids")
+        self.m = clone
+        self.counters[f"clone:{how}"] += 1
+        self.trace.add("clone", how, "ok")
+
     def do_query(self, q: dict) -> None:
         what = q["what"]
         try:
@@ -857,6 +879,8 @@ class EditsMachine(Machine):
             if i < cfg["warmup"]:
                 kinds = [k for k in ("add_parameter", "add_variable", "add_reaction", "add_derived") if k in cfg["mutators"]]
                 op = gen.mutator(r.choice(kinds), snap, names)
+            elif r.random() < cfg.get("clone_rate", 0.0):
+                op = {"op": "clone", "how": r.choice(["deepcopy", "pickle"])}
             elif r.random() < cfg["query_rate"]:
                 op = gen.query(snap)
             else:
